@@ -230,6 +230,7 @@ class Contract:
         return env
 
     def apply(self, eng, args, kwargs, st):
+        eng.last_applied = self
         a = self.bind(eng, args, kwargs, st)
         c0 = Ctx(eng, dict(st.heap))
         caller = eng.cur_contract
